@@ -123,6 +123,19 @@ func genC12(t *rapid.T) CaseC12 {
 		}
 		c.Pairs = append(c.Pairs, p)
 	}
+	if rapid.IntRange(0, 7).Draw(t, "wrapdeep") == 0 {
+		var pre, plain []Step
+		c.Map, pre, plain = wrapDeepPrefix2(t, c.Map)
+		for i := range c.Pairs {
+			if c.Pairs[i].Raw == "" && len(c.Pairs[i].Old) > 0 {
+				use := pre
+				if len(c.Pairs[i].New) == 0 {
+					use = plain // the shorthand form (old path = new path) admits no wildcard
+				}
+				c.Pairs[i].Old = append(append([]Step(nil), use...), c.Pairs[i].Old...)
+			}
+		}
+	}
 	c.Unrelated = genUnrelated(t)
 	if rapid.IntRange(0, 7).Draw(t, "alias") == 0 {
 		c.Alias = &AliasSpec{Src: rapid.IntRange(0, 30).Draw(t, "asrc"), Dst: rapid.IntRange(0, 30).Draw(t, "adst"), Key: rapid.SampledFrom([]string{"al", "a", "zz"}).Draw(t, "akey")}
